@@ -899,12 +899,27 @@ impl Store {
         Ok(children.into_iter().collect())
     }
 
-    pub fn merge(&mut self, other: StoreNode) -> Vec<(String, (ValueEntry, bool))> {
+    pub fn merge(
+        &mut self,
+        other: StoreNode,
+    ) -> (
+        Vec<(String, (ValueEntry, bool))>,
+        Vec<AffectedLsSubscribers>,
+    ) {
         let mut insertions = Vec::new();
+        let mut ls_subscribers = Vec::new();
         let path = Vec::new();
-        Store::nmerge(&mut self.data, other, None, &mut insertions, &path);
+        Store::nmerge(
+            &mut self.data,
+            other,
+            None,
+            &mut insertions,
+            &path,
+            Some(&self.subscribers),
+            &mut ls_subscribers,
+        );
         self.len = Store::ncount_values(&self.data);
-        insertions
+        (insertions, ls_subscribers)
     }
 
     pub fn count_entries(&mut self) {
@@ -917,6 +932,8 @@ impl Store {
         key: Option<&str>,
         insertions: &mut Vec<(String, (ValueEntry, bool))>,
         path: &[&str],
+        subscribers: Option<&SubscribersNode>,
+        ls_subscribers: &mut Vec<AffectedLsSubscribers>,
     ) {
         if let Some(v) = other.take_value() {
             let changed = node.value() != Some(&v);
@@ -932,9 +949,25 @@ impl Store {
         }
 
         if let Some(tree) = other.into_sub_tree() {
+            let mut children_added = false;
             for (key, other_node) in tree {
-                let own_node = node.get_or_create_child(key.to_owned()).0;
-                Store::nmerge(own_node, other_node, Some(&key), insertions, &path);
+                let (own_node, created) = node.get_or_create_child(key.to_owned());
+                children_added |= created;
+                Store::nmerge(
+                    own_node,
+                    other_node,
+                    Some(&key),
+                    insertions,
+                    &path,
+                    subscribers.and_then(|s| s.tree.get(&key)),
+                    ls_subscribers,
+                );
+            }
+            if children_added
+                && let Some(subscribers) = subscribers
+                && !subscribers.ls_subscribers.is_empty()
+            {
+                ls_subscribers.push((subscribers.ls_subscribers.clone(), node.ls_owned()));
             }
         }
     }
